@@ -170,7 +170,7 @@ Switches == {<<a, b>> : a \in ArmPats, b \in ArmPats} \cup
             (IF Wide THEN {<<a, b, c>> : a \in ArmPats, b \in ArmPats, c \in ArmPats} ELSE {})
 
 (* --------------------------- annotated variables ----------------------- *)
-VTypes == <<TBuiltin("int"), TBuiltin("number"), TBuiltin("list"), TBuiltin("str"), TAny, TSat("small")>>
+VTypes == <<TBuiltin("int"), TBuiltin("number"), TBuiltin("list"), TBuiltin("str"), TAny, TSat("small"), TBuiltin("stream")>>
 InitVal(T) ==
     CASE T = TBuiltin("int") -> IntV(3)
       [] T = TBuiltin("number") -> Flt(3, 2)
@@ -178,9 +178,10 @@ InitVal(T) ==
       [] T = TBuiltin("str") -> Str(<<"a">>)
       [] T = TAny -> Null
       [] T = TSat("small") -> I1
-Configs == IF Wide THEN {<<a, b>> : a \in 1..6, b \in {1, 3, 5}}
-           ELSE {<<1, 2>>, <<2, 1>>, <<3, 5>>, <<4, 1>>, <<5, 3>>, <<6, 1>>, <<1, 1>>, <<3, 4>>}
-AVals == {I1, IntV(5), Flt(3, 2), Str(<<"a">>), List(<<I1>>), Null}
+      [] T = TBuiltin("stream") -> Stream(<<I1, I2>>)
+Configs == IF Wide THEN {<<a, b>> : a \in 1..7, b \in {1, 3, 5}}
+           ELSE {<<1, 2>>, <<2, 1>>, <<3, 5>>, <<4, 1>>, <<5, 3>>, <<6, 1>>, <<1, 1>>, <<3, 4>>, <<7, 5>>}
+AVals == {I1, IntV(5), Flt(3, 2), Str(<<"a">>), List(<<I1>>), Null, Stream(<<I1, I2>>)}
 Actions ==
     {Act("assign", x, "", "", 0, w, Null) : x \in VarNames, w \in AVals}
     \cup {Act("every", x, "", "", 0, w, Null) : x \in VarNames, w \in {I1, Flt(3, 2), List(<<I1>>)}}
